@@ -134,7 +134,11 @@ struct Env {
   bool flag(int nid) const { return sr::W().node_arg[nid] != 0; }
   void bind_val(int nid, const T& v) const { bound()[nid] = v.read(); }
   void bind_err_code(int nid, long code) const { bound_err()[nid] = code; }
-  template <class E> void bind_err(int nid, const E& e) const { bound_err()[nid] = sr::error_code(e); }
+  template <class E> void bind_err(int nid, const E& e) const {
+    long code = sr::error_code(e);
+    if (code == 4444444 || code == 4444445) SR_FAIL(vk::ctx().prop == "C05" ? "C05" : "C02", "dead_error_read", "the error handler of node %d was handed %s: the adaptor kept a reference to the error after destroying the child operation the error object lived in", nid, code == 4444444 ? "the contents of an error slot of a destroyed child operation" : "an empty exception_ptr");
+    bound_err()[nid] = code;
+  }
   T errval(int nid) const { return T(sr::mix(11, (uint64_t)bound_err()[nid])); }
   T copy(const T& v) const { return T(v.read()); }
   void bind_ss(int nid, unifex::inplace_stop_source* ss) const { sr::W().bound_ss[nid] = ss; }
@@ -145,7 +149,10 @@ struct Env {
   struct Fn { int nid; T operator()(T v) const { call(nid); return T(sr::mix((uint64_t)nid, v.read())); } };
   struct VFn { int nid; T operator()() const { call(nid); return T(sr::mix((uint64_t)nid, 0)); } };
   struct Sink { int nid; void operator()(T v) const { call(nid); (void)v.read(); } };
-  struct EFn { int nid; template <class E> T operator()(E&& e) const { call(nid); return T(sr::mix((uint64_t)nid, (uint64_t)sr::error_code(e))); } };
+  struct EFn { int nid; template <class E> T operator()(E&& e) const {
+    call(nid); long code = sr::error_code(e);
+    if (code == 4444444 || code == 4444445) SR_FAIL(vk::ctx().prop == "C05" ? "C05" : "C02", "dead_error_read", "the callable of node %d was handed %s", nid, code == 4444444 ? "the contents of an error slot of a destroyed child operation" : "an empty exception_ptr");
+    return T(sr::mix((uint64_t)nid, (uint64_t)code)); } };
   struct JF { int nid; T operator()() const { call(nid); return T(sr::mix((uint64_t)nid, 1)); } };
   struct Pred { int nid; bool operator()() const { call(nid); return sr::W().calls[nid] >= sr::W().node_arg[nid]; } };
   template <class V> static uint64_t payload_of(const V& v) {
